@@ -628,8 +628,15 @@ def dict_resolver(env):
                     co = codefind.find_code(
                         *hierarchy, module=module or "__main__"
                     )
-                except (KeyError, ImportError, TypeError, ValueError):
+                except (
+                    KeyError,
+                    ImportError,
+                    TypeError,
+                    ValueError,
+                    AttributeError,
+                ):
                     # TypeError, ValueError: module names such as "." or ".."
+                    # AttributeError: built-in modules have no file
                     raise CodeNotFoundError(
                         f"Cannot find a function for the reference '{x}'."
                         " Try calling `ptera.refstring` on the function you"
